@@ -72,7 +72,7 @@ type world struct {
 }
 
 func newWorld() *world {
-	w := &world{css: &mcss.Minifier{Precision: 3}, html: &mhtml.Minifier{KeepDocumentTags: true, TemplateDelims: [2]string{"{{", "}}"}}, js: &mjs.Minifier{Version: 2019}, json: &mjson.Minifier{}, svg: &msvg.Minifier{Precision: 4}, xml: &mxml.Minifier{}}
+	w := &world{css: &mcss.Minifier{Precision: 3}, html: &mhtml.Minifier{KeepDocumentTags: true, KeepConditionalComments: true, TemplateDelims: [2]string{"{{", "}}"}}, js: &mjs.Minifier{Version: 2019}, json: &mjson.Minifier{}, svg: &msvg.Minifier{Precision: 4}, xml: &mxml.Minifier{}}
 	w.m = minify.New()
 	w.m.Add("text/css", w.css)
 	w.m.Add("text/html", w.html)
